@@ -1,5 +1,6 @@
 (* C09 Snapshot install never rolls back or forks a node, node-local half. *)
 From Coq Require Import List NArith.
+From RaftV Require AppendRefine RestoreRefine.
 From RaftV Require Import Base Types Quorum Progress Tracker Storage Log Raft RawNode QuorumProofs RaftMono RaftRouting NodeProps PreVoteProofs LocalProofs FlowProofs LogProofs ConfProofs.
 Import ListNotations.
 Open Scope N_scope.
@@ -28,3 +29,17 @@ Theorem C09_response_withheld : forall st r m r', handle_snapshot st r m = Ok r'
 Proof. exact handle_snapshot_ext. Qed.
 Print Assumptions C09_response_withheld.
 
+
+
+(* an accepted snapshot leaves the node with exactly the snapshot's index, term and membership as its
+   new log base (Proofs/RestoreRefine.v): the logical log is the snapshot point followed by nothing,
+   the commit index is the snapshot index, the configuration is the snapshot's *)
+Theorem C09_restore_installs_exactly_the_snapshot : forall st r s r',
+  restore st r s = Ok (r', true) ->
+  r_log r' = l_restore (r_log r) s /\
+  AppendRefine.lview st (r_log r') = mkAbs (s_index s) (s_term s) [] /\
+  l_committed (r_log r') = s_index s /\
+  confstate_equiv (s_conf s) (conf_state (t_config (r_trk r'))) = true /\
+  r_state r' = StateFollower.
+Proof. exact RestoreRefine.restore_installs_snapshot. Qed.
+Print Assumptions C09_restore_installs_exactly_the_snapshot.
